@@ -14,8 +14,8 @@ namespace Seed
 def PRes.NT {α} (r : PRes α) : Prop := r ≠ .timeout
 
 namespace PRes.NT
-theorem ok {α} (a : α) (rest : List Span) : PRes.NT (PRes.ok a rest) := fun h => PRes.noConfusion h
-theorem err {α} (e : PErr) : PRes.NT (PRes.err e : PRes α) := fun h => PRes.noConfusion h
+theorem ok {α} (a : α) (rest : List Span) : PRes.NT (PRes.ok a rest) := by intro h; cases h
+theorem err {α} (e : PErr) : PRes.NT (PRes.err e : PRes α) := by intro h; cases h
 
 theorem bind {α β} {m : Nat} {r : PRes α} {f : α → List Span → PRes β} (hb : PRes.Bnd m r) (hn : PRes.NT r)
     (hf : ∀ a ts, ts.length < m → PRes.NT (f a ts)) : PRes.NT (r.bind f) := by
@@ -79,24 +79,24 @@ macro "ptot_arith" : tactic =>
 macro "ptot_call " ih:ident : tactic =>
   `(tactic| first
     | exact expectTok_nt _ _ | exact expectIdent_nt _
-    | (apply PTotAll.parseAtom $ih; ptot_arith) | (apply PTotAll.parsePostfix $ih; ptot_arith)
-    | (apply PTotAll.postfixLoop $ih; ptot_arith) | (apply PTotAll.parseIndexTail $ih; ptot_arith)
-    | (apply PTotAll.parseRangeEnd $ih; ptot_arith) | (apply PTotAll.parseTier $ih; ptot_arith)
-    | (apply PTotAll.tierLoop $ih; ptot_arith) | (apply PTotAll.parseExpr1 $ih; ptot_arith)
-    | (apply PTotAll.rangeLoop $ih; ptot_arith) | (apply PTotAll.parseExpr $ih; ptot_arith)
-    | (apply PTotAll.parseArgs $ih; ptot_arith) | (apply PTotAll.parseExprList $ih; ptot_arith)
-    | (apply PTotAll.parseParams $ih; ptot_arith) | (apply PTotAll.parsePropItems $ih; ptot_arith)
-    | (apply PTotAll.parsePropTail $ih; ptot_arith) | (apply PTotAll.parseBlock $ih; ptot_arith)
-    | (apply PTotAll.parseStmts $ih; ptot_arith) | (apply PTotAll.parseIf $ih; ptot_arith)
-    | (apply PTotAll.parseStmtTail $ih; ptot_arith) | (apply PTotAll.parseExprStmt $ih; ptot_arith)
-    | (apply PTotAll.parseRawStmt $ih; ptot_arith) | (apply PTotAll.parseBraceStmt $ih; ptot_arith))
+    | ((with_reducible apply PTotAll.parseAtom $ih); ptot_arith) | ((with_reducible apply PTotAll.parsePostfix $ih); ptot_arith)
+    | ((with_reducible apply PTotAll.postfixLoop $ih); ptot_arith) | ((with_reducible apply PTotAll.parseIndexTail $ih); ptot_arith)
+    | ((with_reducible apply PTotAll.parseRangeEnd $ih); ptot_arith) | ((with_reducible apply PTotAll.parseTier $ih); ptot_arith)
+    | ((with_reducible apply PTotAll.tierLoop $ih); ptot_arith) | ((with_reducible apply PTotAll.parseExpr1 $ih); ptot_arith)
+    | ((with_reducible apply PTotAll.rangeLoop $ih); ptot_arith) | ((with_reducible apply PTotAll.parseExpr $ih); ptot_arith)
+    | ((with_reducible apply PTotAll.parseArgs $ih); ptot_arith) | ((with_reducible apply PTotAll.parseExprList $ih); ptot_arith)
+    | ((with_reducible apply PTotAll.parseParams $ih); ptot_arith) | ((with_reducible apply PTotAll.parsePropItems $ih); ptot_arith)
+    | ((with_reducible apply PTotAll.parsePropTail $ih); ptot_arith) | ((with_reducible apply PTotAll.parseBlock $ih); ptot_arith)
+    | ((with_reducible apply PTotAll.parseStmts $ih); ptot_arith) | ((with_reducible apply PTotAll.parseIf $ih); ptot_arith)
+    | ((with_reducible apply PTotAll.parseStmtTail $ih); ptot_arith) | ((with_reducible apply PTotAll.parseExprStmt $ih); ptot_arith)
+    | ((with_reducible apply PTotAll.parseRawStmt $ih); ptot_arith) | ((with_reducible apply PTotAll.parseBraceStmt $ih); ptot_arith))
 
 macro "ptot_auto " ih:ident hb:ident : tactic =>
   `(tactic| repeat' first
     | exact PRes.NT.ok _ _
     | exact PRes.NT.err _
-    | ptot_call $ih
     | (refine PRes.NT.bind (by pbnd_call $hb) (by ptot_call $ih) ?_)
+    | ptot_call $ih
     | intro _ _ _
     | (dsimp only [])
     | (apply PRes.NT.map; ptot_call $ih)
@@ -109,13 +109,13 @@ theorem ptotAll_succ (n : Nat) (ih : PTotAll n) : PTotAll (n + 1) := by
   have hb := pbndAll n
   constructor
   · intro pre ts hn; (conv => arg 1; unfold parseAtom); ptot_auto ih hb
-  · intro l pre ts hn; (conv => arg 1; unfold parsePostfix); ptot_auto ih hb
+  · intro l pre ts hn; cases pre <;> ((conv => arg 1; unfold parsePostfix); ptot_auto ih hb)
   · intro l acc ts hn; (conv => arg 1; unfold postfixLoop); ptot_auto ih hb
   · intro e ts hn; (conv => arg 1; unfold parseIndexTail); ptot_auto ih hb
   · intro e s ts hn; (conv => arg 1; unfold parseRangeEnd); ptot_auto ih hb
-  · intro k l pre ts hn; (conv => arg 1; unfold parseTier); ptot_auto ih hb
+  · intro k l pre ts hn; cases pre <;> ((conv => arg 1; unfold parseTier); ptot_auto ih hb)
   · intro k l acc ts hn; (conv => arg 1; unfold tierLoop); ptot_auto ih hb
-  · intro s l pre ts hn; (conv => arg 1; unfold parseExpr1); ptot_auto ih hb
+  · intro s l pre ts hn; cases pre <;> ((conv => arg 1; unfold parseExpr1); ptot_auto ih hb)
   · intro s l acc ts hn; (conv => arg 1; unfold rangeLoop); ptot_auto ih hb
   · intro s ts hn; (conv => arg 1; unfold parseExpr); ptot_auto ih hb
   · intro acc ts hn; (conv => arg 1; unfold parseArgs); ptot_auto ih hb
@@ -127,7 +127,7 @@ theorem ptotAll_succ (n : Nat) (ih : PTotAll n) : PTotAll (n + 1) := by
   · intro c acc ts hn; (conv => arg 1; unfold parseStmts); ptot_auto ih hb
   · intro ts hn; (conv => arg 1; unfold parseIf); ptot_auto ih hb
   · intro lhs ts hn; (conv => arg 1; unfold parseStmtTail); ptot_auto ih hb
-  · intro amb l pre ts hn; (conv => arg 1; unfold parseExprStmt); ptot_auto ih hb
+  · intro amb l pre ts hn; cases pre <;> ((conv => arg 1; unfold parseExprStmt); ptot_auto ih hb)
   · intro amb ts hn; (conv => arg 1; unfold parseRawStmt); ptot_auto ih hb
   · intro amb l ts hn; (conv => arg 1; unfold parseBraceStmt); ptot_auto ih hb
 
@@ -164,8 +164,8 @@ theorem parseProg_ne_timeout (src : List Char) : parseProg src ≠ .timeout := b
   dsimp only at h ⊢
   split
   · rename_i heq; exact absurd heq h
-  · exact fun h => Front.noConfusion h
-  · split <;> exact fun h => Front.noConfusion h
+  · (intro h; cases h)
+  · split <;> (intro h; cases h)
 
 theorem parseExprTop_ne_timeout (src : List Char) : parseExprTop src ≠ .timeout := by
   unfold parseExprTop
@@ -175,9 +175,9 @@ theorem parseExprTop_ne_timeout (src : List Char) : parseExprTop src ≠ .timeou
   dsimp only at h ⊢
   split
   · rename_i heq; exact absurd heq h
-  · exact fun h => Front.noConfusion h
+  · (intro h; cases h)
   · split
-    · exact fun h => Front.noConfusion h
-    · split <;> exact fun h => Front.noConfusion h
+    · (intro h; cases h)
+    · split <;> (intro h; cases h)
 
 end Seed
